@@ -66,7 +66,56 @@ def has_cmp(tests, want_text, env=None, polarity=True):
   return False
 
 
+def touching_is_not_crossing(ctx, rule):
+  """Location-independent, comparison by comparison: with skip_splits_inside_notes a split point is dropped only if a note is
+  *sustained across* it: starts before and ends after.  A note that ends exactly at the point, or starts exactly there, is not
+  sustained across it.  Whatever form the sweep takes (a loop with a running list, a helper with all()/any(), a comprehension),
+  every comparison between a note's start_time / end_time and the candidate time is evaluated twice (sa.scenario): with the note
+  clearly across (start one unit before / end one unit after) and with the note touching (start == time / end == time).  The two
+  answers must differ; a comparison that gives the same answer for both treats a touching note as crossing (or vice versa)."""
+  from sa import scenario
+  for name in ('split_note_sequence', 'split_note_sequence_on_time_changes'):
+    fi = ctx.func(SL + ':' + name)
+    fn = fi.node
+    found = {'start_time': 0, 'end_time': 0}
+    for c in ast.walk(fn):
+      if not (isinstance(c, ast.Compare) and len(c.ops) == 1 and isinstance(c.ops[0], (ast.Lt, ast.LtE, ast.Gt, ast.GtE))):
+        continue
+      for a, b in ((c.left, c.comparators[0]), (c.comparators[0], c.left)):
+        if not (isinstance(a, ast.Attribute) and a.attr in found):
+          continue
+        if any(isinstance(x, ast.Attribute) and x.attr in ('start_time', 'end_time', 'total_time') for x in ast.walk(b)) or U.const_value(b) is not None:
+          continue
+        if isinstance(a.value, ast.Name) and a.value.id in fi.params():
+          continue
+        at, bt = norm_text(a), norm_text(b)
+        delta = '- 1' if a.attr == 'start_time' else '+ 1'
+        try:
+          across = scenario.tv(c, scenario.subst_of([(at, '%s %s' % (bt, delta))]))
+          touch = scenario.tv(c, scenario.subst_of([(at, bt)]))
+        except Exception:      # pylint: disable=broad-except
+          across = touch = None
+        found[a.attr] += 1
+        cons = '%s: %s separates "across" from "touching"' % (name, norm_text(c))
+        if across is None or touch is None:
+          why = 'cannot classify: %s cannot be evaluated at %s == %s' % (norm_text(c), at, bt)
+          ctx.ob(rule, fi, c, False, why, construct=cons, unknown=why)
+        elif across != touch:
+          ctx.ob(rule, fi, c, True, '%s is %s for a note across the point and %s for one that %s exactly there' % (norm_text(c), across, touch, 'starts' if a.attr == 'start_time' else 'ends'),
+                 construct=cons)
+        else:
+          ctx.ob(rule, fi, c, False, '%s gives %s both for a note sustained across the point (%s == %s %s) and for a note that only %s exactly there (%s == %s): a split point that '
+                 'coincides with a note %s is %s' % (norm_text(c), across, at, bt, delta, 'starts' if a.attr == 'start_time' else 'ends', at, bt,
+                                                      'start' if a.attr == 'start_time' else 'end',
+                                                      'skipped although no note is sustained across it' if (across if a.attr == 'end_time' else across) else 'treated like a clear one'),
+                 construct=cons, definite=True)
+    if not found['end_time']:
+      why = 'cannot classify: %s has no comparison between a note end and the candidate split time; how "sustained across" is decided is not recognised' % name
+      ctx.ob(rule, fi, fn, False, why, construct='%s: note ends are compared with the candidate time' % name, unknown=why)
+
+
 def run(ctx):
+  touching_is_not_crossing(ctx, 'SPLIT/touching-is-not-crossing')
   for name in ('trim_note_sequence', '_extract_subsequences', 'extract_subsequence', 'split_note_sequence',
                'split_note_sequence_on_time_changes', 'split_note_sequence_on_silence'):
     ptypes, consts, borrowed, _r = own.RETURNS_NEW[name]
